@@ -91,17 +91,23 @@ def merge_chunk(total: Dict[str, Any], agg: Dict[str, Any], pool_idx: int) -> No
     for k, v in agg.get("sets", {}).items():
         total.setdefault("sets", {}).setdefault(k, set()).update(v)
     if agg.get("cross"):
+        # deterministic whatever the completion order of the chunks: the outcome of the run with the
+        # smallest index represents the key; keys with more than one outcome are the conflicts
         d = total.setdefault("cross", {}).setdefault(pool_idx, {})
+        alt = total.setdefault("cross_outcomes", {}).setdefault(pool_idx, {})
         for k, val in agg["cross"].items():
+            val = tuple(val)
             if k not in d:
                 d[k] = val
-            elif d[k][0] != val[0]:
-                total.setdefault("cross_conflicts", []).append((pool_idx, k, d[k][1], val[1]))
+            else:
+                if d[k][0] != val[0]:
+                    alt.setdefault(k, {d[k][0]}).add(val[0])
+                if val[1] < d[k][1]:
+                    d[k] = val
     for c in agg.get("cross_conflicts", []):
-        total.setdefault("cross_conflicts", []).append((pool_idx,) + tuple(c))
+        total.setdefault("cross_conflict_keys", set()).add((pool_idx, c[0]))
     total.setdefault("digest_by_index", {}).update(agg.get("digest_by_index", {}))
-    if len(total.setdefault("samples", [])) < 3:
-        total["samples"].extend(agg.get("samples", [])[:3 - len(total["samples"])])
+    total["samples"] = sorted(total.get("samples", []) + agg.get("samples", []), key=lambda x: x.get("index", 0))[:3]
     viols = total.setdefault("violations", {})
     for key, ent in agg.get("violations", {}).items():
         ent = dict(ent)
@@ -235,6 +241,10 @@ def check(prop: str, tier: str, batch_seed: int, repo: str, workers: int = 16,
                 queues = [[] for _ in queues]
         total["truncated_by_wall"] = truncated
 
+        ck = set(total.get("cross_conflict_keys", ()))
+        for pi_, alt_ in total.get("cross_outcomes", {}).items():
+            ck.update((pi_, k_) for k_ in alt_)
+        total["cross_conflicts"] = sorted(ck)
         # cross-pool oracle (C17: sibling interpreter with the opposite import-time flag)
         if hasattr(meta, "cross_check"):
             for v in meta.cross_check(total):
@@ -341,6 +351,8 @@ def check(prop: str, tier: str, batch_seed: int, repo: str, workers: int = 16,
                 raise HarnessError(unconfirmed[0])
             print(f"[verif] note: {len(unconfirmed)} further violation class(es) did not replay in a fresh interpreter "
                   f"(outcome depends on process history) and are not reported", flush=True)
+            for u in unconfirmed[:4]:
+                print("[verif] note:   " + u.replace("\n", " | ")[:700], flush=True)
         if len(new_viols) > max_report:
             print(f"[verif] {len(new_viols) - max_report} further violation classes not minimised:", flush=True)
             for k, e in new_viols[max_report:max_report + 300]:
